@@ -41,6 +41,9 @@ type c13Plan struct {
 	Status   int         `json:"status"`
 	RHeaders []c13Header `json:"rheaders"`
 	RBodyLen int         `json:"rbody_len"`
+	// Prior: the deploy under test is a REdeploy: 1 = an earlier deploy with the opposite target options (forwarding,
+	// buffering), 2 = that plus a rollout deploy in between (rollout targets in place when the options change)
+	Prior    int         `json:"prior,omitempty"`
 	RFraming string      `json:"rframing"` // cl | chunked | chunked-trailer (a trailer field after the last chunk) | close
 	BufReq   bool        `json:"buf_req"`
 	BufResp  bool        `json:"buf_resp"`
@@ -114,6 +117,7 @@ func c13Gen(t *rapid.T) c13Plan {
 	}
 	p.RBodyLen = rapid.SampledFrom([]int{0, 1, 100, 4096, 40000, 70000}).Draw(t, "rbody-len")
 	p.RFraming = rapid.SampledFrom([]string{"cl", "chunked", "chunked-trailer", "close"}).Draw(t, "rframing")
+	p.Prior = rapid.SampledFrom([]int{0, 0, 0, 1, 2}).Draw(t, "prior")
 	p.BufReq = rapid.IntRange(0, 4).Draw(t, "buf-req") == 0
 	p.BufResp = rapid.IntRange(0, 4).Draw(t, "buf-resp") == 0
 	p.Early = rapid.IntRange(0, 4).Draw(t, "early") == 0
@@ -196,6 +200,24 @@ func c13Run(t *testing.T, p c13Plan) (res vfResult) {
 		to.ForwardHeaders = p.Forward
 		to.BufferRequests, to.BufferResponses = p.BufReq, p.BufResp
 		to.MaxMemoryBufferSize = 1024
+		if p.Prior > 0 {
+			// the service has a past: other targets, the opposite options
+			w.target("old0:80")
+			old := to
+			old.ForwardHeaders, old.BufferRequests, old.BufferResponses = !to.ForwardHeaders, !to.BufferRequests, !to.BufferResponses
+			if err := vfDeploy(r, "svc", []string{"old0:80"}, opts, old, 5*time.Second, time.Second); err != nil {
+				res.failf("setup-failed", "prior deploy: %v", err)
+				return
+			}
+			if p.Prior == 2 {
+				w.target("oldr0:80")
+				if err := vfRolloutDeploy(r, "svc", []string{"oldr0:80"}, 5*time.Second, time.Second); err != nil {
+					res.failf("setup-failed", "prior rollout deploy: %v", err)
+					return
+				}
+			}
+			res.label(fmt.Sprintf("redeploy-with-other-options:%d", p.Prior))
+		}
 		if err := vfDeploy(r, "svc", []string{"raw0:80"}, opts, to, 5*time.Second, time.Second); err != nil {
 			res.failf("setup-failed", "deploy: %v", err)
 			return
